@@ -153,6 +153,12 @@ def run(tier):
     # ------------------------------------------------------------------ d
     _driver(chk)
     _gradient_slots(chk)
+    # the gradient blocks the sub-flows evaluate are the full polynomial Jacobian (C17.b storage rule), and the event
+    # driver advances the same carried extended state as the plain driver (C11.b symplectic protocol)
+    from . import c17, c11
+    from .common import Relabel
+    c17._b_storage(Relabel(chk, {"C17.b": "C16.d-storage"}))
+    c11._b_symplectic(Relabel(chk, {"C11.b": "C16.d-event-driver"}), tier)
     return chk
 
 
